@@ -116,6 +116,7 @@ func checkConversionArms(c *Ctx, r *Report, clause string) {
 	w := c.W
 	perEngine := map[string][]string{}
 	bitSizes := map[string]map[string]string{}
+	bases := map[string]map[string]string{}
 	for _, en := range c.T.Order {
 		eng := c.T.Engines[en]
 		t := eng.Partials["RequestSwitchParamType"]
@@ -124,6 +125,7 @@ func checkConversionArms(c *Ctx, r *Report, clause string) {
 		}
 		set := map[string]bool{}
 		bitSizes[en] = map[string]string{}
+		bases[en] = map[string]string{}
 		var walk func(p *hast.Program)
 		walk = func(p *hast.Program) {
 			if p == nil {
@@ -153,6 +155,31 @@ func checkConversionArms(c *Ctx, r *Report, clause string) {
 										}
 									}
 									bitSizes[en][sl.Value] = call + "/" + size
+									// the base of an integer parse: the first operand after the text
+									if call == "ParseInt" || call == "ParseUint" {
+										depth, commas := 0, 0
+										for j := i + 3; j < len(toks) && j < i+20; j++ {
+											switch toks[j].Tok {
+											case token.LPAREN:
+												depth++
+											case token.RPAREN:
+												depth--
+											case token.COMMA:
+												if depth == 1 {
+													commas++
+													if commas == 1 && j+1 < len(toks) {
+														bases[en][sl.Value] = toks[j+1].Lit
+														if j+2 < len(toks) && toks[j+2].Tok != token.COMMA {
+															bases[en][sl.Value] += "…"
+														}
+													}
+												}
+											}
+											if depth == 0 && j > i+3 {
+												break
+											}
+										}
+									}
 									break
 								}
 							}
@@ -200,6 +227,18 @@ func checkConversionArms(c *Ctx, r *Report, clause string) {
 				viol = fmt.Sprintf("%s: the %s arm parses with strconv.%s (want %s): values outside the declared width are truncated by the following conversion instead of being answered 422", en, k, got, v)
 			}
 		}
+		vb := ""
+		nb := 0
+		for k, b := range bases[en] {
+			nb++
+			if b != "10" {
+				vb = fmt.Sprintf("%s: the %s arm parses its text with base %s: a value is no longer read as the decimal number that was sent (base 0 reads \"010\" as 8, accepts \"0x10\" and \"1_000\", rejects \"08\")", en, k, b)
+			}
+		}
+		if nb < 8 {
+			vb = fmt.Sprintf("%s: only %d integer parse calls with a base recognised (floor 8)", en, nb)
+		}
+		r.add(clause, "setagree", en+":conversion-base-10", en+": every integer arm parses decimal text", []string{t.File}, []string{t.File + ":1"}, vb)
 		o := r.add(clause, "setagree", en+":conversion-bit-sizes", en+": each sized numeric kind is parsed with its own bit size, so out-of-range input fails conversion", []string{t.File}, []string{t.File + ":1"}, viol)
 		o.NonTrivial = true
 	}
